@@ -35,6 +35,35 @@ type c10Case struct {
 
 func c10Graph(c *c10Case) *gen.Graph {
 	g := gen.NewGraph("c10")
+	if c.Host == "inner" {
+		// the host task, its boundary events and their exception flows all live inside an embedded sub-process
+		// (boundary events are declared in the scope of the activity they are attached to)
+		s := g.Add(gen.Start, "start", "")
+		w := g.Add(gen.Sub, "W", "")
+		e := g.Add(gen.End, "end", "")
+		g.Connect(s, w, nil)
+		g.Connect(w, e, nil)
+		ws := g.Add(gen.Start, "ws", "W")
+		t0 := g.Add(gen.Task, "t0", "W")
+		h := g.Add(gen.Task, "th", "W")
+		tn := g.Add(gen.Task, "tn", "W")
+		en := g.Add(gen.End, "endn", "W")
+		g.Connect(ws, t0, nil)
+		g.Connect(t0, h, nil)
+		g.Connect(h, tn, nil)
+		g.Connect(tn, en, nil)
+		for i, intr := range c.Intr {
+			b := g.Add(gen.Boundary, fmt.Sprintf("bnd%d", i+1), "W")
+			b.Host = h.ID
+			b.Intr = intr
+			b.Events = []gen.EventDef{{Type: "signal", Ref: fmt.Sprintf("s%d", i+1)}}
+			tx := g.Add(gen.Task, fmt.Sprintf("tx%d", i+1), "W")
+			ex := g.Add(gen.End, fmt.Sprintf("endx%d", i+1), "W")
+			g.Connect(b, tx, nil)
+			g.Connect(tx, ex, nil)
+		}
+		return g
+	}
 	s := g.Add(gen.Start, "start", "")
 	t0 := g.Add(gen.Task, "t0", "")
 	var h *gen.Node
@@ -69,7 +98,7 @@ func c10Graph(c *c10Case) *gen.Graph {
 
 func c10Cases(tier string, seed uint64) []fw.Case {
 	var cs []fw.Case
-	for _, host := range []string{"task", "sub"} {
+	for _, host := range []string{"task", "sub", "inner"} {
 		for _, intr := range [][]bool{{true}, {false}, {true, true}, {true, false}, {false, true}, {false, false}} {
 			alpha := []string{"a0", "e1", "ah", "ax", "as", "ar"}
 			if len(intr) == 2 {
